@@ -650,7 +650,8 @@ class Variant(productmd.composeinfo.VariantBase):
             raise ValueError("Invalid variant UID value: %s" % uid)
 
         self.uid = uid
-        if addon:
+        if addon and not parser.has_section("variant-%s" % uid):
+            # child variants of other types are stored in variant-$uid sections
             self.type = "addon"
 
         # variant details
